@@ -1,7 +1,7 @@
 """C17 — partial and alternative readers agree with the full reader."""
 from checks.gdscommon import same, nontrivial, classify  # noqa
 CONFIG = {
-    "manifest": {'level_text': 'Theorem filter_commutes: for EVERY byte stream and tag set, loading with a tag filter equals loading everything and discarding other tags (order included), by simulation on the reader model; theorem that the loader ignores the timestamp words; prefix theorems for the unit/timestamp queries. gds_info, filtered loads and timestamp rewriting are compared with their extracted models on every generated file, and every clause (summary vs load, units, target unit, raw-cell transplant, timestamp locality) is decided on the implementation by oracles.', 'level_note': 'info_agrees (summary counts = full load) and the target-unit / raw-cell clauses are decided per run by oracles, not yet by theorems.', 'technique': 'Coq proof (simulation for the tag filter) + extracted-model differential run + implementation-level oracles'},
+    "manifest": {'level_text': "Coq theorems (closed under the global context): info_agrees - for EVERY byte stream accepted by the strict GDSII grammar decoder, the summary scan gds_info (statement-level model incl. its layer / next-set state) reports exactly the cell names (in order), polygon / path / reference / label counts, shape- and label-tag sets and UNITS patterns of the layout that the full reader loads from the same bytes; filter_commutes - for every byte stream whatsoever and every tag set, loading with a filter equals loading everything and discarding the other polygons and paths, order included (simulation on the reader model); the loader never reads the timestamp words of BGNLIB / BGNSTR, so rewriting them cannot change what is loaded; the unit and timestamp queries on any prefix give an error or the complete file's values. gds_info, filtered loads and the timestamp rewrite are compared with their extracted models on every generated file, and every clause is also decided on the implementation by oracles.", 'level_note': 'Target-unit rescaling and the raw-cell transplant through GdsWriter are decided per run by implementation-level oracles (no theorem: they involve floating-point scaling resp. file offsets). The tag sets are compared as sets (gds_info keeps insertion order without duplicates).', 'technique': 'Coq proofs (grammar-directed agreement of summary scan and full reader; simulation for the tag filter) + extracted-model differential run + implementation-level oracles'},
     "prop_file": "Properties_C17",
     "extract_file": "Extract_Gds",
     "extracted": ["gds"],
